@@ -153,7 +153,7 @@ Proof.
       split; [exact A5|]. split; [discriminate|]. split; [exact A7|]. split; [exact A8 | exact A9].
     + destruct (A6 eq_refl) as (F1 & D1).
       destruct (f (pid p) m) as [c|].
-      * inversion H; subst. destruct (prw p); cbn [interrupted repaired sticky unpend pend done failed elab half].
+      * inversion H; subst. destruct (prw p); cbn [interrupted records repaired sticky sticky_base andb orb unpend pend done failed elab half].
         -- split; [exact Hpend|]. split; [exact A2|]. split.
            { intros x Hx. rewrite rec_of_cons_ne by (apply Hne; exact Hx). apply A3.
              destruct Hx as [Hx|Hx]; [left; rewrite memp_cons, Hx; apply orb_true_r | right; exact Hx]. }
@@ -268,7 +268,7 @@ Proof.
     + destruct (A6 eq_refl) as (F1 & D1).
       destruct (f (pid p) m) as [c|] eqn:EB; [|discriminate].
       inversion H; subst. destruct (prw p) eqn:ERW.
-      * rewrite visit_S. cbn [interrupted repaired sticky unpend pend done failed elab half rec_of].
+      * rewrite visit_S. cbn [interrupted records repaired sticky sticky_base andb orb unpend pend done failed elab half rec_of].
         rewrite Nat.eqb_refl. reflexivity.
       * rewrite visit_S. cbn [unpend pend done failed elab half].
         rewrite Hmrec, Hmdone, Hpend, EP, EK. rewrite (unpend_add s2 s m A1 EP).
@@ -321,7 +321,7 @@ Proof.
 Qed.
 
 Lemma run_passes_goodC f fuel tops : forall ps s s' r,
-  run_passes repaired kids f fuel ps tops s = (s', r) -> GoodC s s' r.
+  run_passes_on repaired kids f fuel ps tops s = (s', r) -> GoodC s s' r.
 Proof.
   induction ps as [|p ps IH]; intros s s' r H; cbn in H.
   - inversion H; subst. apply goodC_refl.
@@ -331,7 +331,7 @@ Proof.
 Qed.
 
 (* after a successful elaboration every top is done for every pass of the list and carries no record *)
-Lemma run_passes_ok f fuel tops : forall ps s s', run_passes repaired kids f fuel ps tops s = (s', None) ->
+Lemma run_passes_ok f fuel tops : forall ps s s', run_passes_on repaired kids f fuel ps tops s = (s', None) ->
   forall p t, In p ps -> In t tops -> memp (pid p, t) (done s') = true /\ rec_of t (failed s') = None.
 Proof.
   induction ps as [|p ps IH]; intros s s' H q t Hq Ht; [destruct Hq|]. cbn in H.
@@ -343,14 +343,14 @@ Proof.
   - apply (IH _ _ H q t Hq Ht).
 Qed.
 
-Lemma run_passes_nil f fuel : forall ps s, run_passes repaired kids f fuel ps [] s = (s, None).
+Lemma run_passes_nil f fuel : forall ps s, run_passes_on repaired kids f fuel ps [] s = (s, None).
 Proof. induction ps as [|p ps IH]; intros s; cbn; [reflexivity | apply IH]. Qed.
 
 Lemma run_passes_skip f k tops : forall ps s,
   (forall p t, In p ps -> In t tops -> memp (pid p, t) (done s) = true /\ rec_of t (failed s) = None) ->
-  run_passes repaired kids f (S k) ps tops s = (s, None).
+  run_passes_on repaired kids f (S k) ps tops s = (s, None).
 Proof.
-  induction ps as [|p ps IH]; intros s H; cbn [run_passes]; [reflexivity|].
+  induction ps as [|p ps IH]; intros s H; cbn [run_passes_on]; [reflexivity|].
   rewrite (fold_skip kids p f k s tops).
   - apply IH. intros q t Hq Ht. apply H; [right; exact Hq | exact Ht].
   - intros t Ht. destruct (H p t (or_introl eq_refl) Ht). split; assumption.
@@ -358,7 +358,7 @@ Qed.
 
 (* a successful elaboration repeated: nothing runs, nothing changes, whatever the oracle *)
 Lemma run_passes_idem f f' fuel ps tops s s' :
-  run_passes repaired kids f fuel ps tops s = (s', None) -> run_passes repaired kids f' fuel ps tops s' = (s', None).
+  run_passes_on repaired kids f fuel ps tops s = (s', None) -> run_passes_on repaired kids f' fuel ps tops s' = (s', None).
 Proof.
   intros H. destruct tops as [|t0 tops]; [apply run_passes_nil|].
   destruct ps as [|p0 ps]; [reflexivity|].
@@ -387,15 +387,15 @@ Proof.
 Qed.
 
 Lemma retry_passes fuel tops : forall ps s s' e,
-  run_passes repaired kids f fuel ps tops s = (s', Some e) -> run_passes repaired kids f' fuel ps tops s' = (s', Some e).
+  run_passes_on repaired kids f fuel ps tops s = (s', Some e) -> run_passes_on repaired kids f' fuel ps tops s' = (s', Some e).
 Proof.
   induction ps as [|p ps IH]; intros s s' e H; cbn in H; [discriminate|].
   destruct (fold_visit (visit repaired kids f p fuel) s tops) as [s1 r1] eqn:E. destruct r1 as [e1|].
-  - inversion H; subst. cbn [run_passes].
+  - inversion H; subst. cbn [run_passes_on].
     rewrite (retry_fold kids p f f' fuel (retry_visit kids p f f' (Hf (pid p)) fuel) _ _ _ _ E). reflexivity.
   - pose proof (fold_good p _ (visit_good kids p f fuel) _ _ _ _ E) as (A1 & A2 & A3 & A4 & A5 & A6 & A7 & A8 & A9).
     destruct (A6 eq_refl) as (F1 & D1). pose proof (run_passes_goodC _ _ _ _ _ _ _ H) as (B1 & B2 & B3 & B4 & B5 & B6 & B7).
-    cbn [run_passes]. destruct (fold_ok_fuel kids p f fuel _ _ _ E) as [->|[k ->]].
+    cbn [run_passes_on]. destruct (fold_ok_fuel kids p f fuel _ _ _ E) as [->|[k ->]].
     + cbn [fold_visit]. apply (IH _ _ _ H).
     + destruct (tops_retry p k s' e (failed s1) tops) as [HT|HT].
       * intros t Ht. destruct (D1 t Ht) as [D2 R2]. split; [apply B2; exact D2 | rewrite F1; exact R2].
@@ -441,7 +441,8 @@ Lemma export_spec f fuel ps tops s s' r l :
   s' = fst (run_passes repaired kids f fuel ps tops s) /\
   forall x, In x l -> rec_of x (failed s') = None.
 Proof.
-  unfold export. destruct (run_passes repaired kids f fuel ps tops s) as [s1 r1] eqn:E.
+  unfold export, run_passes. set (ms := starts repaired kids fuel tops).
+  destruct (run_passes_on repaired kids f fuel ps ms s) as [s1 r1] eqn:E.
   pose proof (run_passes_goodC _ _ _ _ _ _ _ E) as G. destruct r1 as [e|].
   - intros H. inversion H; subst. cbn [snd fst]. split; [exact G|]. split; [reflexivity | intros x []].
   - destruct (fold_x (xvisit repaired kids s1 fuel) [] tops) as [a r2] eqn:EX. destruct r2 as [e|]; intros H; inversion H; subst; cbn [fst snd].
@@ -452,10 +453,11 @@ Proof.
 Qed.
 End Calls.
 
-(* ------------------------------------------------------------------ generator cache, cleanup = true *)
+(* ------------------------------------------------------------------ generator cache, policy GFinally *)
 Section GenProofs.
+Variable cached : nat -> bool.
 Variable calls : nat -> list nat.
-Variable gf : nat -> nat -> option nat.
+Variable gf : nat -> nat -> option (nat * nat).
 
 Lemma grem_head k l : gmem k l = false -> grem k (k :: l) = l.
 Proof.
@@ -466,7 +468,7 @@ Qed.
 Definition GGood (r : gst -> nat -> gst * option gerr) : Prop :=
   forall s k s' o, r s k = (s', o) ->
     gpend s' = gpend s /\ gstack s' = gstack s /\ (forall x, gmem x (gdone s) = true -> gmem x (gdone s') = true) /\
-    (o = None -> gmem k (gdone s') = true) /\
+    (o = None -> cached k = true -> gmem k (gdone s') = true) /\
     (forall x, gmem x (gpend s) = true -> gmem x (gdone s') = gmem x (gdone s)).
 
 Lemma gfold_good r : GGood r -> forall ks s s' o, gfold r s ks = (s', o) ->
@@ -484,37 +486,50 @@ Qed.
 Lemma gmem_cons x k l : gmem x (k :: l) = Nat.eqb x k || gmem x l.
 Proof. reflexivity. Qed.
 
-Lemma grun_good : forall fuel, GGood (grun true calls gf fuel).
+(* the traversal of the nested calls of k, seen from the state before the call *)
+Lemma grun_inner n (IH : GGood (grun GFinally cached calls gf n)) s k :
+  cached k && gmem k (gpend s) = false ->
+  forall ks s2 o2, gfold (grun GFinally cached calls gf n) (start cached k (push k s)) ks = (s2, o2) ->
+    gpend (pop (unp cached k s2)) = gpend s /\ gstack (pop (unp cached k s2)) = gstack s /\
+    (forall x, gmem x (gdone s) = true -> gmem x (gdone s2) = true) /\
+    (forall x, gmem x (gpend s) = true -> gmem x (gdone s2) = gmem x (gdone s)) /\
+    (cached k = true -> gmem k (gdone s2) = gmem k (gdone s)).
+Proof.
+  intros EP ks s2 o2 E. destruct (gfold_good _ IH _ _ _ _ E) as (A1 & A2 & A3 & A5).
+  cbn [start push gpend gstack gdone] in *. cbn [pop unp gpend gstack]. rewrite A1, A2. cbn [tl].
+  destruct (cached k) eqn:EC; cbn [andb] in EP.
+  - split; [apply grem_head; exact EP|]. split; [reflexivity|]. split; [exact A3|]. split.
+    + intros x Hx. apply A5. rewrite gmem_cons, Hx. apply orb_true_r.
+    + intros _. apply A5. rewrite gmem_cons, Nat.eqb_refl. reflexivity.
+  - split; [reflexivity|]. split; [reflexivity|]. split; [exact A3|]. split; [exact A5 | discriminate].
+Qed.
+
+Lemma grun_good : forall fuel, GGood (grun GFinally cached calls gf fuel).
 Proof.
   induction fuel as [|n IH]; intros s k s' o H; cbn [grun] in H.
   - inversion H; subst. repeat split; auto; discriminate.
-  - destruct (gmem k (gdone s)) eqn:ED. { inversion H; subst. repeat split; auto. }
-    destruct (gmem k (gpend s)) eqn:EP. { inversion H; subst. repeat split; auto; discriminate. }
-    assert (W : forall ks s2 o2, gfold (grun true calls gf n) (start k (push k s)) ks = (s2, o2) ->
-                gpend (pop (unp k s2)) = gpend s /\ gstack (pop (unp k s2)) = gstack s /\
-                (forall x, gmem x (gdone s) = true -> gmem x (gdone s2) = true) /\
-                (forall x, gmem x (gpend s) = true -> gmem x (gdone s2) = gmem x (gdone s))).
-    { intros ks s2 o2 E. destruct (gfold_good _ IH _ _ _ _ E) as (A1 & A2 & A3 & A5). cbn [start push gpend gstack gdone] in *.
-      cbn [pop unp gpend gstack]. rewrite A1, A2. cbn [tl]. split; [apply grem_head; exact EP|]. split; [reflexivity|]. split; [exact A3|].
-      intros x Hx. apply A5. rewrite gmem_cons, Hx. apply orb_true_r. }
-    destruct (gf k (gcount k (gruns s))) as [i|].
-    + destruct (gfold (grun true calls gf n) (start k (push k s)) (firstn i (calls k))) as [s2 o2] eqn:E.
-      destruct (W _ _ _ E) as (W1 & W2 & W3 & W5). unfold unwind in H.
+  - destruct (cached k && gmem k (gdone s)) eqn:ED.
+    { inversion H; subst. apply andb_true_iff in ED. destruct ED as [_ ED]. repeat split; auto. }
+    destruct (cached k && gmem k (gpend s)) eqn:EP. { inversion H; subst. repeat split; auto; discriminate. }
+    pose proof (grun_inner n IH s k EP) as W.
+    destruct (gf k (gcount k (gruns s))) as [[i kind]|].
+    + destruct (gfold (grun GFinally cached calls gf n) (start cached k (push k s)) (firstn i (calls k))) as [s2 o2] eqn:E.
+      destruct (W _ _ _ E) as (W1 & W2 & W3 & W5 & _). unfold unwind in H.
       destruct o2; inversion H; subst; (split; [exact W1|]; split; [exact W2|]; split; [exact W3|]; split; [discriminate | exact W5]).
-    + destruct (gfold (grun true calls gf n) (start k (push k s)) (calls k)) as [s2 o2] eqn:E.
-      destruct (W _ _ _ E) as (W1 & W2 & W3 & W5). unfold unwind in H.
+    + destruct (gfold (grun GFinally cached calls gf n) (start cached k (push k s)) (calls k)) as [s2 o2] eqn:E.
+      destruct (W _ _ _ E) as (W1 & W2 & W3 & W5 & _). unfold unwind in H.
       destruct o2; inversion H; subst; cbn [finish gpend gstack gdone].
       * split; [exact W1|]. split; [exact W2|]. split; [exact W3|]. split; [discriminate | exact W5].
       * split; [exact W1|]. split; [exact W2|]. split.
-        { intros x Hx. cbn [pop unp gdone]. rewrite gmem_cons, (W3 x Hx). apply orb_true_r. }
-        split. { intros _. rewrite gmem_cons, Nat.eqb_refl. reflexivity. }
-        intros x Hx. cbn [pop unp gdone]. rewrite gmem_cons, (W5 x Hx).
-        destruct (Nat.eqb x k) eqn:Exk; [|reflexivity]. apply Nat.eqb_eq in Exk. subst x. congruence.
+        { intros x Hx. cbn [pop unp gdone]. destruct (cached k); [rewrite gmem_cons, (W3 x Hx); apply orb_true_r | exact (W3 x Hx)]. }
+        split. { intros _ ->. rewrite gmem_cons, Nat.eqb_refl. reflexivity. }
+        intros x Hx. cbn [pop unp gdone]. destruct (cached k) eqn:EC; [|exact (W5 x Hx)]. rewrite gmem_cons, (W5 x Hx).
+        destruct (Nat.eqb x k) eqn:Exk; [|reflexivity]. apply Nat.eqb_eq in Exk. subst x. cbn [andb] in EP. congruence.
 Qed.
 
 (* a call that is neither cached nor pending executes its body: the log grows by k *)
-Lemma grun_runs_body n s k : gmem k (gdone s) = false -> gmem k (gpend s) = false ->
-  exists l, gruns (fst (grun true calls gf (S n) s k)) = l ++ k :: gruns s.
+Lemma grun_runs_body n s k : cached k && gmem k (gdone s) = false -> cached k && gmem k (gpend s) = false ->
+  exists l, gruns (fst (grun GFinally cached calls gf (S n) s k)) = l ++ k :: gruns s.
 Proof.
   intros ED EP. cbn [grun]. rewrite ED, EP.
   assert (W : forall r ks s0, (forall s k, exists l, gruns (fst (r s k)) = l ++ gruns s) ->
@@ -523,48 +538,51 @@ Proof.
     destruct (r s0 c) as [s1 o1] eqn:E. destruct (Hr s0 c) as [l1 H1]. rewrite E in H1. cbn in H1. destruct o1.
     - exists l1. exact H1.
     - destruct (IHk s1 Hr) as [l2 H2]. exists (l2 ++ l1). rewrite H2, H1, app_assoc. reflexivity. }
-  assert (R : forall m s k, exists l, gruns (fst (grun true calls gf m s k)) = l ++ gruns s).
+  assert (R : forall m s k, exists l, gruns (fst (grun GFinally cached calls gf m s k)) = l ++ gruns s).
   { induction m as [|m IHm]; intros s0 k0; cbn [grun]; [exists []; reflexivity|].
-    destruct (gmem k0 (gdone s0)); [exists []; reflexivity|]. destruct (gmem k0 (gpend s0)); [exists []; reflexivity|].
-    destruct (gf k0 (gcount k0 (gruns s0))) as [i|].
-    - destruct (W (grun true calls gf m) (firstn i (calls k0)) (start k0 (push k0 s0)) IHm) as [l H].
-      destruct (gfold (grun true calls gf m) (start k0 (push k0 s0)) (firstn i (calls k0))) as [s2 o2]. cbn in H.
+    destruct (cached k0 && gmem k0 (gdone s0)); [exists []; reflexivity|].
+    destruct (cached k0 && gmem k0 (gpend s0)); [exists []; reflexivity|].
+    destruct (gf k0 (gcount k0 (gruns s0))) as [[i kind]|].
+    - destruct (W (grun GFinally cached calls gf m) (firstn i (calls k0)) (start cached k0 (push k0 s0)) IHm) as [l H].
+      destruct (gfold (grun GFinally cached calls gf m) (start cached k0 (push k0 s0)) (firstn i (calls k0))) as [s2 o2]. cbn in H.
       exists (l ++ [k0]). destruct o2; cbn; rewrite H, <- app_assoc; reflexivity.
-    - destruct (W (grun true calls gf m) (calls k0) (start k0 (push k0 s0)) IHm) as [l H].
-      destruct (gfold (grun true calls gf m) (start k0 (push k0 s0)) (calls k0)) as [s2 o2]. cbn in H.
+    - destruct (W (grun GFinally cached calls gf m) (calls k0) (start cached k0 (push k0 s0)) IHm) as [l H].
+      destruct (gfold (grun GFinally cached calls gf m) (start cached k0 (push k0 s0)) (calls k0)) as [s2 o2]. cbn in H.
       exists (l ++ [k0]). destruct o2; cbn; rewrite H, <- app_assoc; reflexivity. }
-  destruct (gf k (gcount k (gruns s))) as [i|].
-  - destruct (W (grun true calls gf n) (firstn i (calls k)) (start k (push k s)) (R n)) as [l H].
-    destruct (gfold (grun true calls gf n) (start k (push k s)) (firstn i (calls k))) as [s2 o2]. cbn in H.
+  destruct (gf k (gcount k (gruns s))) as [[i kind]|].
+  - destruct (W (grun GFinally cached calls gf n) (firstn i (calls k)) (start cached k (push k s)) (R n)) as [l H].
+    destruct (gfold (grun GFinally cached calls gf n) (start cached k (push k s)) (firstn i (calls k))) as [s2 o2]. cbn in H.
     exists l. destruct o2; cbn; exact H.
-  - destruct (W (grun true calls gf n) (calls k) (start k (push k s)) (R n)) as [l H].
-    destruct (gfold (grun true calls gf n) (start k (push k s)) (calls k)) as [s2 o2]. cbn in H.
+  - destruct (W (grun GFinally cached calls gf n) (calls k) (start cached k (push k s)) (R n)) as [l H].
+    destruct (gfold (grun GFinally cached calls gf n) (start cached k (push k s)) (calls k)) as [s2 o2]. cbn in H.
     exists l. destruct o2; cbn; exact H.
 Qed.
 
 Lemma gen_rerun fuel n s k e :
   gpend s = [] ->
-  snd (grun true calls gf (S fuel) s k) = Some e ->
-  let s' := fst (grun true calls gf (S fuel) s k) in
-  gpend s' = [] /\ gstack s' = gstack s /\ gmem k (gdone s') = false /\
-  exists l, gruns (fst (grun true calls gf (S n) s' k)) = l ++ k :: gruns s'.
+  snd (grun GFinally cached calls gf (S fuel) s k) = Some e ->
+  let s' := fst (grun GFinally cached calls gf (S fuel) s k) in
+  gpend s' = [] /\ gstack s' = gstack s /\ cached k && gmem k (gdone s') = false /\
+  exists l, gruns (fst (grun GFinally cached calls gf (S n) s' k)) = l ++ k :: gruns s'.
 Proof.
-  intros HP HE s'. destruct (grun true calls gf (S fuel) s k) as [s1 o] eqn:E. cbn [fst snd] in *. subst o s'.
+  intros HP HE s'. destruct (grun GFinally cached calls gf (S fuel) s k) as [s1 o] eqn:E. cbn [fst snd] in *. subst o s'.
   destruct (grun_good (S fuel) _ _ _ _ E) as (A1 & A2 & A3 & A4 & A5).
-  assert (ED : gmem k (gdone s) = false).
-  { destruct (gmem k (gdone s)) eqn:X; [|reflexivity]. cbn [grun] in E. rewrite X in E. discriminate. }
-  assert (ED1 : gmem k (gdone s1) = false).
-  { cbn [grun] in E. rewrite ED, HP in E. cbn [gmem existsb] in E.
-    assert (W : forall ks s2 o2, gfold (grun true calls gf fuel) (start k (push k s)) ks = (s2, o2) -> gmem k (gdone s2) = false).
-    { intros ks s2 o2 EF. destruct (gfold_good _ (grun_good fuel) _ _ _ _ EF) as (_ & _ & _ & B5).
-      rewrite B5; [exact ED|]. cbn [start push gpend]. rewrite gmem_cons, Nat.eqb_refl. reflexivity. }
-    destruct (gf k (gcount k (gruns s))) as [i|].
-    - destruct (gfold (grun true calls gf fuel) (start k (push k s)) (firstn i (calls k))) as [s2 o2] eqn:EF.
+  assert (ED : cached k && gmem k (gdone s) = false).
+  { destruct (cached k && gmem k (gdone s)) eqn:X; [|reflexivity]. cbn [grun] in E. rewrite X in E. discriminate. }
+  assert (EP : cached k && gmem k (gpend s) = false) by (rewrite HP; cbn; apply andb_false_r).
+  assert (ED1 : cached k && gmem k (gdone s1) = false).
+  { destruct (cached k) eqn:EC; [|reflexivity]. cbn [andb] in *.
+    cbn [grun] in E. rewrite EC in E. cbn [andb] in E. rewrite ED, EP in E.
+    assert (W : forall ks s2 o2, gfold (grun GFinally cached calls gf fuel) (start cached k (push k s)) ks = (s2, o2) -> gmem k (gdone s2) = false).
+    { intros ks s2 o2 EF. assert (EP' : cached k && gmem k (gpend s) = false) by (rewrite EC; exact EP).
+      destruct (grun_inner fuel (grun_good fuel) s k EP' _ _ _ EF) as (_ & _ & _ & _ & B6). rewrite (B6 EC). exact ED. }
+    destruct (gf k (gcount k (gruns s))) as [[i kind]|].
+    - destruct (gfold (grun GFinally cached calls gf fuel) (start cached k (push k s)) (firstn i (calls k))) as [s2 o2] eqn:EF.
       pose proof (W _ _ _ EF) as W1. unfold unwind in E. destruct o2; inversion E; subst; exact W1.
-    - destruct (gfold (grun true calls gf fuel) (start k (push k s)) (calls k)) as [s2 o2] eqn:EF.
+    - destruct (gfold (grun GFinally cached calls gf fuel) (start cached k (push k s)) (calls k)) as [s2 o2] eqn:EF.
       pose proof (W _ _ _ EF) as W1. unfold unwind in E. destruct o2; inversion E; subst. exact W1. }
   split; [congruence|]. split; [exact A2|]. split; [exact ED1|].
-  apply grun_runs_body; [exact ED1 | rewrite A1, HP; reflexivity].
+  apply grun_runs_body; [exact ED1 | rewrite A1, HP; cbn; apply andb_false_r].
 Qed.
 End GenProofs.
 
@@ -581,7 +599,9 @@ Proof.
   unfold do_call. destruct (c_export c).
   - destruct (export repaired (assoc_kids (c_kids c)) (assoc_fail (c_fail c)) (call_fuel c) (c_passes c) (c_tops c) s)
       as [[s' r] l] eqn:E. destruct (export_spec _ _ _ _ _ _ _ _ _ E) as (G & _ & N). cbn [fst snd]. eexists. split; [exact G | exact N].
-  - destruct (run_passes repaired (assoc_kids (c_kids c)) (assoc_fail (c_fail c)) (call_fuel c) (c_passes c) (c_tops c) s)
+  - unfold run_passes.
+    destruct (run_passes_on repaired (assoc_kids (c_kids c)) (assoc_fail (c_fail c)) (call_fuel c) (c_passes c)
+                (starts repaired (assoc_kids (c_kids c)) (call_fuel c) (c_tops c)) s)
       as [s' r] eqn:E. cbn [fst snd]. exists r. split; [apply (run_passes_goodC _ _ _ _ _ _ _ _ E) | intros x []].
 Qed.
 
@@ -641,15 +661,16 @@ Lemma do_call_retry s c c' e : more_faults c c' ->
   do_call repaired (fst (fst (do_call repaired s c))) c' = (fst (fst (do_call repaired s c)), Some e, []).
 Proof.
   intros (K & P & T & X & F). unfold do_call, call_fuel. rewrite K, P, T, X. destruct (c_export c).
-  - unfold export.
-    destruct (run_passes repaired (assoc_kids (c_kids c)) (assoc_fail (c_fail c)) (S (length (c_kids c))) (c_passes c) (c_tops c) s)
+  - unfold export, run_passes. set (ms := starts repaired (assoc_kids (c_kids c)) (S (length (c_kids c))) (c_tops c)).
+    destruct (run_passes_on repaired (assoc_kids (c_kids c)) (assoc_fail (c_fail c)) (S (length (c_kids c))) (c_passes c) ms s)
       as [s1 r1] eqn:E. destruct r1 as [e1|].
     + cbn [fst snd]. intros H. inversion H; subst.
       rewrite (retry_passes _ _ _ F _ _ _ _ _ _ E). reflexivity.
     + destruct (fold_x (xvisit repaired (assoc_kids (c_kids c)) s1 (S (length (c_kids c)))) [] (c_tops c)) as [a r2] eqn:EX.
       destruct r2 as [e2|]; cbn [fst snd]; intros H; [|discriminate]. inversion H; subst.
       rewrite (run_passes_idem _ _ (assoc_fail (c_fail c')) _ _ _ _ _ E), EX. reflexivity.
-  - destruct (run_passes repaired (assoc_kids (c_kids c)) (assoc_fail (c_fail c)) (S (length (c_kids c))) (c_passes c) (c_tops c) s)
+  - unfold run_passes. set (ms := starts repaired (assoc_kids (c_kids c)) (S (length (c_kids c))) (c_tops c)).
+    destruct (run_passes_on repaired (assoc_kids (c_kids c)) (assoc_fail (c_fail c)) (S (length (c_kids c))) (c_passes c) ms s)
       as [s1 r1] eqn:E. cbn [fst snd]. intros ->. rewrite (retry_passes _ _ _ F _ _ _ _ _ _ E). reflexivity.
 Qed.
 
@@ -695,7 +716,7 @@ Proof.
 Qed.
 Lemma agree_interrupted m c s1 s2 : agree R s1 s2 -> agree R (interrupted repaired m c s1) (interrupted repaired m c s2).
 Proof.
-  intros A x Hx. destruct (A x Hx) as (A1 & A2 & A3 & A4). cbn [interrupted repaired sticky done pend failed elab].
+  intros A x Hx. destruct (A x Hx) as (A1 & A2 & A3 & A4). cbn [interrupted records repaired sticky sticky_base andb orb done pend failed elab].
   split; [exact A1|]. split; [exact A2|]. split; [cbn [rec_of]; rewrite A3; reflexivity | exact A4].
 Qed.
 Lemma agree_set_done y b s1 s2 : agree R s1 s2 -> agree R (set_done y b s1) (set_done y b s2).
@@ -740,10 +761,10 @@ End Frame.
 
 Lemma frame_passes kids f R fuel tops : closed kids R -> (forall t, In t tops -> R t = true) ->
   forall ps s1 s2, agree R s1 s2 ->
-  snd (run_passes repaired kids f fuel ps tops s1) = snd (run_passes repaired kids f fuel ps tops s2) /\
-  agree R (fst (run_passes repaired kids f fuel ps tops s1)) (fst (run_passes repaired kids f fuel ps tops s2)).
+  snd (run_passes_on repaired kids f fuel ps tops s1) = snd (run_passes_on repaired kids f fuel ps tops s2) /\
+  agree R (fst (run_passes_on repaired kids f fuel ps tops s1)) (fst (run_passes_on repaired kids f fuel ps tops s2)).
 Proof.
-  intros HC HT. induction ps as [|p ps IH]; intros s1 s2 A; cbn [run_passes]; [split; [reflexivity | exact A]|].
+  intros HC HT. induction ps as [|p ps IH]; intros s1 s2 A; cbn [run_passes_on]; [split; [reflexivity | exact A]|].
   destruct (frame_fold R _ (frame_visit kids f p R HC fuel) tops s1 s2 A HT) as [E1 E2].
   destruct (fold_visit (visit repaired kids f p fuel) s1 tops) as [a1 r1].
   destruct (fold_visit (visit repaired kids f p fuel) s2 tops) as [a2 r2]. cbn [fst snd] in *. subst r2.
@@ -765,6 +786,39 @@ Proof.
   rewrite (HF cs acc (fun c Hc => HC m cs c Hm EK Hc)). reflexivity.
 Qed.
 
+(* everything a pass starts from lies in a child-closed set that contains the tops *)
+Lemma reach_step_R kids R : closed kids R -> forall fuel seen m, (forall x, In x seen -> R x = true) -> R m = true ->
+  forall x, In x (reach_step kids fuel seen m) -> R x = true.
+Proof.
+  intros HC. induction fuel as [|k IH]; intros seen m Hs Hm x Hx; cbn [reach_step] in Hx; [apply Hs; exact Hx|].
+  destruct (memn m seen); [apply Hs; exact Hx|].
+  destruct (kids m) as [cs|] eqn:EK.
+  - assert (HF : forall cs0 seen0, (forall c, In c cs0 -> R c = true) -> (forall z, In z seen0 -> R z = true) ->
+                 forall z, In z (fold_left (reach_step kids k) cs0 seen0) -> R z = true).
+    { induction cs0 as [|a cs0 IHc]; intros seen0 Hc Hs0 y Hy; cbn [fold_left] in Hy; [apply Hs0; exact Hy|].
+      apply (IHc (reach_step kids k seen0 a)); [intros c' Hc'; apply Hc; right; exact Hc' | | exact Hy].
+      intros z Hz. apply (IH seen0 a Hs0 (Hc a (or_introl eq_refl)) z Hz). }
+    apply (HF cs (m :: seen)); [intros c' Hc'; apply (HC m cs c' Hm EK Hc') | | exact Hx].
+    intros z [<-|Hz]; [exact Hm | apply Hs; exact Hz].
+  - destruct Hx as [<-|Hx]; [exact Hm | apply Hs; exact Hx].
+Qed.
+
+Lemma fold_reach_R kids R fuel : closed kids R -> forall tops seen, (forall t, In t tops -> R t = true) ->
+  (forall x, In x seen -> R x = true) -> forall x, In x (fold_left (reach_step kids fuel) tops seen) -> R x = true.
+Proof.
+  intros HC. induction tops as [|t tops IH]; intros seen HT Hs x Hx; cbn [fold_left] in Hx; [apply Hs; exact Hx|].
+  apply (IH (reach_step kids fuel seen t)); [intros t' Ht'; apply HT; right; exact Ht' | | exact Hx].
+  intros z Hz. apply (reach_step_R kids R HC fuel seen t Hs (HT t (or_introl eq_refl)) z Hz).
+Qed.
+
+Lemma starts_R pol kids R fuel tops : closed kids R -> (forall t, In t tops -> R t = true) ->
+  forall t, In t (starts pol kids fuel tops) -> R t = true.
+Proof.
+  intros HC HT t Ht. unfold starts in Ht. destruct (sweep pol); [|apply HT; exact Ht].
+  apply in_app_or in Ht. destruct Ht as [Ht|Ht]; [apply HT; exact Ht|].
+  unfold below in Ht. apply in_rev in Ht. apply (fold_reach_R kids R fuel HC tops [] HT (fun x (F : In x []) => match F with end) t Ht).
+Qed.
+
 Lemma frame_call R s1 s2 c :
   closed (assoc_kids (c_kids c)) R -> agree R s1 s2 -> (forall t, In t (c_tops c) -> R t = true) ->
   snd (do_call repaired s1 c) = snd (do_call repaired s2 c) /\
@@ -772,10 +826,13 @@ Lemma frame_call R s1 s2 c :
   agree R (fst (fst (do_call repaired s1 c))) (fst (fst (do_call repaired s2 c))).
 Proof.
   intros HC A HT. unfold do_call.
-  destruct (frame_passes _ (assoc_fail (c_fail c)) R (call_fuel c) (c_tops c) HC HT (c_passes c) s1 s2 A) as [E1 E2].
-  destruct (c_export c); unfold export.
-  - destruct (run_passes repaired (assoc_kids (c_kids c)) (assoc_fail (c_fail c)) (call_fuel c) (c_passes c) (c_tops c) s1) as [a1 r1].
-    destruct (run_passes repaired (assoc_kids (c_kids c)) (assoc_fail (c_fail c)) (call_fuel c) (c_passes c) (c_tops c) s2) as [a2 r2].
+  pose proof (starts_R repaired _ R (call_fuel c) (c_tops c) HC HT) as HS.
+  destruct (frame_passes _ (assoc_fail (c_fail c)) R (call_fuel c) _ HC HS (c_passes c) s1 s2 A) as [E1 E2].
+  destruct (c_export c); unfold export, run_passes.
+  - destruct (run_passes_on repaired (assoc_kids (c_kids c)) (assoc_fail (c_fail c)) (call_fuel c) (c_passes c)
+                (starts repaired (assoc_kids (c_kids c)) (call_fuel c) (c_tops c)) s1) as [a1 r1].
+    destruct (run_passes_on repaired (assoc_kids (c_kids c)) (assoc_fail (c_fail c)) (call_fuel c) (c_passes c)
+                (starts repaired (assoc_kids (c_kids c)) (call_fuel c) (c_tops c)) s2) as [a2 r2].
     cbn [fst snd] in *. subst r2. destruct r1 as [e|]; cbn [fst snd]; [split; [reflexivity|]; split; [reflexivity | exact E2]|].
     assert (HX : forall ts acc, (forall t, In t ts -> R t = true) ->
                  fold_x (xvisit repaired (assoc_kids (c_kids c)) a1 (call_fuel c)) acc ts =
@@ -787,4 +844,96 @@ Proof.
     rewrite (HX (c_tops c) [] HT).
     destruct (fold_x (xvisit repaired (assoc_kids (c_kids c)) a2 (call_fuel c)) [] (c_tops c)) as [xx [ee|]]; cbn [fst snd]; (split; [reflexivity|]; split; [reflexivity | exact E2]).
   - cbn [fst snd]. split; [reflexivity|]. split; [exact E1 | exact E2].
+Qed.
+
+(* ------------------------------------------------------------------ a module that instantiates a recorded module is
+   never completed by any pass, never recorded itself, never marked: a parent built around a failed module after the
+   failure stays exactly as it was built, so that pointing its instances at a re-created module later is elaborated as in a
+   fresh process (frame) *)
+Definition same_on (x : nat) (s s' : pst) : Prop :=
+  (forall q, memp (q, x) (done s') = memp (q, x) (done s)) /\ rec_of x (failed s') = rec_of x (failed s) /\
+  memn x (elab s') = memn x (elab s).
+
+Lemma same_on_refl x s : same_on x s s.
+Proof. repeat split. Qed.
+Lemma same_on_trans x s s1 s2 : same_on x s s1 -> same_on x s1 s2 -> same_on x s s2.
+Proof. intros (A1 & A2 & A3) (B1 & B2 & B3). split; [intros q; rewrite B1; apply A1|]. split; congruence. Qed.
+
+Section Untouched.
+Variable kids : nat -> option (list nat).
+Variable f : nat -> nat -> option Z.
+Variables (x b : nat) (cs : list nat).
+Hypothesis Hk : kids x = Some cs.
+Hypothesis Hb : In b cs.
+
+Lemma fold_untouched p v : Good p v ->
+  (forall s m s' r, v s m = (s', r) -> rec_of b (failed s) <> None -> same_on x s s') ->
+  forall ms s s' r, fold_visit v s ms = (s', r) -> rec_of b (failed s) <> None -> same_on x s s'.
+Proof.
+  intros G Hv. induction ms as [|m ms IH]; intros s s' r H HB; cbn [fold_visit] in H.
+  - inversion H; subst. apply same_on_refl.
+  - destruct (v s m) as [s1 r1] eqn:E. pose proof (Hv _ _ _ _ E HB) as S1.
+    destruct r1 as [e|]; [inversion H; subst; exact S1|].
+    pose proof (G _ _ _ _ E) as (_ & _ & _ & _ & _ & _ & A7 & _).
+    eapply same_on_trans; [exact S1 | apply (IH _ _ _ H)]. apply A7. exact HB.
+Qed.
+
+Lemma visit_untouched p : forall k s m s' r, visit repaired kids f p k s m = (s', r) ->
+  rec_of b (failed s) <> None -> same_on x s s'.
+Proof.
+  induction k as [|k IH]; intros s m s' r H HB.
+  - cbn in H. inversion H; subst. apply same_on_refl.
+  - rewrite visit_S in H. destruct (rec_of m (failed s)) as [c|] eqn:ER.
+    { inversion H; subst. apply same_on_refl. }
+    destruct (memp (pid p, m) (done s)) eqn:ED. { inversion H; subst. apply same_on_refl. }
+    destruct (memp (pid p, m) (pend s)) eqn:EP. { inversion H; subst. apply same_on_refl. }
+    destruct (kids m) as [cm|] eqn:EK. 2:{ inversion H; subst. apply same_on_refl. }
+    destruct (fold_visit (visit repaired kids f p k) (add_pend (pid p, m) s) cm) as [s2 r2] eqn:EF.
+    pose proof (fold_untouched p _ (visit_good kids p f k) IH _ _ _ _ EF HB) as (S1 & S2 & S3).
+    pose proof (fold_good p _ (visit_good kids p f k) _ _ _ _ EF) as (A1 & A2 & A3 & A4 & A5 & A6 & A7 & A8 & A9).
+    cbn [add_pend pend done failed elab half] in *.
+    (* the traversal of the children of x cannot succeed: b carries a record *)
+    assert (Hne : r2 = None -> x <> m).
+    { intros -> ->. destruct (A6 eq_refl) as (_ & D1). rewrite EK in Hk. inversion Hk; subst cm.
+      destruct (D1 b Hb) as [_ R]. apply HB. exact R. }
+    destruct r2 as [e|].
+    + inversion H; subst. unfold same_on. cbn [unpend pend done failed elab half]. split; [exact S1|]. split; [exact S2 | exact S3].
+    + pose proof (Hne eq_refl) as Hxm. destruct (f (pid p) m) as [c|].
+      * inversion H; subst. unfold same_on. destruct (prw p); cbn [interrupted records repaired sticky sticky_base andb orb unpend pend done failed elab half].
+        -- split; [exact S1|]. split; [rewrite rec_of_cons_ne by exact Hxm; exact S2 | exact S3].
+        -- split; [exact S1|]. split; [exact S2 | exact S3].
+      * inversion H; subst. unfold same_on. cbn [set_done unpend pend done failed elab half fst snd].
+        split; [intros q; rewrite (memp_X_ne p q x m _ Hxm); apply S1|]. split; [exact S2|].
+        destruct (pmk p); [|exact S3]. unfold memn in *. cbn [existsb]. apply Nat.eqb_neq in Hxm. rewrite Hxm. exact S3.
+Qed.
+
+Lemma passes_untouched fuel ms : forall ps s s' r, run_passes_on repaired kids f fuel ps ms s = (s', r) ->
+  rec_of b (failed s) <> None -> same_on x s s'.
+Proof.
+  induction ps as [|p ps IH]; intros s s' r H HB; cbn [run_passes_on] in H.
+  - inversion H; subst. apply same_on_refl.
+  - destruct (fold_visit (visit repaired kids f p fuel) s ms) as [s1 r1] eqn:E.
+    pose proof (fold_untouched p _ (visit_good kids p f fuel) (visit_untouched p fuel) _ _ _ _ E HB) as S1.
+    destruct r1 as [e|]; [inversion H; subst; exact S1|].
+    pose proof (fold_goodC kids f p fuel _ _ _ _ E) as (_ & _ & _ & _ & A5 & _).
+    eapply same_on_trans; [exact S1 | apply (IH _ _ _ H)]. apply A5. exact HB.
+Qed.
+End Untouched.
+
+Lemma do_call_state pol s c :
+  fst (fst (do_call pol s c)) =
+  fst (run_passes pol (assoc_kids (c_kids c)) (assoc_fail (c_fail c)) (call_fuel c) (c_passes c) (c_tops c) s).
+Proof.
+  unfold do_call. destruct (c_export c); [|reflexivity]. unfold export.
+  destruct (run_passes pol (assoc_kids (c_kids c)) (assoc_fail (c_fail c)) (call_fuel c) (c_passes c) (c_tops c) s) as [s1 [e|]]; [reflexivity|].
+  destruct (fold_x (xvisit pol (assoc_kids (c_kids c)) s1 (call_fuel c)) [] (c_tops c)) as [a [e|]]; reflexivity.
+Qed.
+
+Lemma do_call_untouched s c x b cs : assoc_kids (c_kids c) x = Some cs -> In b cs -> rec_of b (failed s) <> None ->
+  same_on x s (fst (fst (do_call repaired s c))).
+Proof.
+  intros Hk Hb HB. rewrite do_call_state. unfold run_passes.
+  destruct (run_passes_on repaired (assoc_kids (c_kids c)) (assoc_fail (c_fail c)) (call_fuel c) (c_passes c)
+              (starts repaired (assoc_kids (c_kids c)) (call_fuel c) (c_tops c)) s) as [s1 r1] eqn:E.
+  apply (passes_untouched _ _ x b cs Hk Hb _ _ _ _ _ _ E HB).
 Qed.
